@@ -7,12 +7,12 @@ EXTENDS ArgDecl, Json
 CONSTANTS MaxUses, CfgSel
 VARIABLES ci, line, words, st
 
-A0(s, l, kind) == [s |-> s, l |-> l, pos |-> FALSE, kind |-> kind, vm |-> IF kind = "flag" THEN "none" ELSE "req",
+A0(s, l, kind) == [s |-> s, l |-> l, pos |-> FALSE, kind |-> kind, vm |-> IF kind = "flag" THEN "none" ELSE IF kind = "level" THEN "opt" ELSE "req",
                    mand |-> FALSE, card |-> [t |-> "dflt", a |-> 0, b |-> 0], checks |-> <<>>, formats |-> <<>>,
                    sep |-> 44, clear |-> FALSE, sort |-> FALSE, uniq |-> "no", multi |-> FALSE, req |-> <<>>, exc |-> <<>>,
-                   init |-> CASE kind = "flag" -> FALSE [] kind \in {"int", "dbl"} -> 0 [] kind \in {"arr3", "sarr3"} -> <<0, 0, 0>>
+                   init |-> CASE kind = "flag" -> FALSE [] kind \in {"int", "dbl", "level"} -> 0 [] kind \in {"arr3", "sarr3"} -> <<0, 0, 0>>
                              [] kind = "tup" -> <<0, <<>>, 0>> [] kind = "bits8" -> [k \in 1..8 |-> FALSE] [] OTHER -> <<>>,
-                   depr |-> FALSE, unset |-> FALSE, cspell |-> 0, grp |-> 0, hidden |-> FALSE, dashes |-> FALSE]
+                   depr |-> FALSE, unset |-> FALSE, cspell |-> 0, grp |-> 0, hidden |-> FALSE, dashes |-> FALSE, mix |-> FALSE]
 Ck(k, a, b) == [k |-> k, a |-> a, b |-> b, vals |-> <<>>]
 C0(args, hcons, abbr) == [abbr |-> abbr, endvalues |-> FALSE, args |-> args, hcons |-> hcons]
 H(k, as) == [k |-> k, args |-> as, cspell |-> 0, grp |-> 0]
@@ -46,7 +46,11 @@ Cfgs == <<
    \* 12: disjoint constraint on two vectors, one of them with unique data
    C0(<<A0(97, K_al, "vecint"), [A0(118, K_val, "vecint") EXCEPT !.uniq = "ignore", !.init = <<7>>]>>, <<H("disjoint", <<1, 2>>)>>, TRUE),
    \* 13: floating-point destinations (values are multiples of 1/4), differ constraint
-   C0(<<[A0(97, K_al, "dbl") EXCEPT !.init = 10], A0(118, K_val, "dbl"), A0(98, <<>>, "flag")>>, <<H("differ", <<1, 2>>)>>, TRUE)
+   C0(<<[A0(97, K_al, "dbl") EXCEPT !.init = 10], A0(118, K_val, "dbl"), A0(98, <<>>, "flag")>>, <<H("differ", <<1, 2>>)>>, TRUE),
+   \* 14: level counters (optional value mode): plain with an upper limit, and one that allows mixing increment and set
+   C0(<<[A0(118, K_val, "level") EXCEPT !.checks = <<Ck("upper", 3, 0)>>], [A0(110, K_num, "level") EXCEPT !.mix = TRUE, !.init = 7], A0(97, K_al, "flag")>>, <<>>, TRUE),
+   \* 15: multi-value vector ended by --endvalues, positional string
+   [C0(<<[A0(118, K_val, "vecint") EXCEPT !.multi = TRUE], A0(97, <<101, 110>>, "flag")>>, <<>>, TRUE) EXCEPT !.endvalues = TRUE]
 >>
 Sel == IF CfgSel = {} THEN 1..Len(Cfgs) ELSE CfgSel
 Cfg == Cfgs[ci]
@@ -55,6 +59,7 @@ IntPool == {<<48>>, <<55>>, <<45, 51>>, <<120>>, <<49, 50>>}          \* "0" "7"
 StrPool == {<<120>>, <<97, 98>>, <<45, 121>>, <<88, 121, 122>>}        \* "x" "ab" "-y" "Xyz"
 ValChoices(arg) ==
    IF arg.kind = "flag" THEN {<<>>}
+   ELSE IF arg.kind = "level" THEN {<<>>, <<<<50>>>>, <<<<55>>>>, <<<<120>>>>}
    ELSE IF arg.kind = "dbl" THEN {<<v>> : v \in {<<50, 46, 53>>, <<45, 48, 46, 50, 53>>, <<51>>, <<120>>, <<49, 46, 55, 53>>, <<49, 46, 51>>}}   \* "2.5" "-0.25" "3" "x" "1.75" "1.3"
    ELSE IF arg.kind = "tup" THEN {<<<<55>>, <<97, 98>>, <<45, 51>>>>, <<<<48>>, <<120>>, <<120>>>>, <<<<55>>, <<120>>>>, <<<<48>>>>, <<<<55>>, <<120>>, <<48>>, <<55>>>>}
    ELSE IF IsContainer(arg.kind) THEN {<<v>> : v \in IntPool \ {<<49, 50>>}} \cup {<<v, w>> : v, w \in {<<48>>, <<55>>, <<45, 51>>}}
